@@ -25,13 +25,27 @@ REQUIRED_THEOREMS = ['C14_once', 'C14_args_lang', 'C14_args_lang_memo', 'C14_sam
                      'C14_fail_only_construct', 'C14_other_keys', 'C14_entries_stable',
                      'C14_langs', 'C14_langs_shared', 'C14_langs_fresh', 'C14_langs_drop',
                      'C14_schedules', 'C14_schedules_complete', 'C14_schedules_once', 'C14_schedules_args_lang',
-                     'C14_schedules_same_inst', 'C14_schedules_fail']
+                     'C14_schedules_same_inst', 'C14_schedules_fail',
+                     'C14_fine_grained_mutex',
+                     'C14_fine_grained_reduces_to_atomic',
+                     'C14_fine_grained_request_is_with_try_get',
+                     'C14_fine_grained_once',
+                     'C14_fine_grained_sequential',
+                     'C14_fine_grained_complete',
+                     'C14_fine_grained_same_inst',
+                     'C14_fine_grained_fail',
+                     'C14_fine_grained_realizes_atomic',
+                     'C14_check_then_act_refuted']
 MODEL = 'c14'
 HARNESS_BINS = ['memo_run']
 ANCHORS = ['intl-memoizer/src/lib.rs', 'intl-memoizer/src/concurrent.rs', 'fluent-bundle/src/memoizer.rs',
            'fluent-bundle/src/concurrent.rs', 'fluent-bundle/src/bundle.rs']
-PARTIAL = ('The theorems are complete for the model. The model takes one with_try_get as ONE atomic step: that is read off '
-           'concurrent.rs (the MutexGuard is taken first and outlives construct, insert and cb(e)), it is not derived. '
+PARTIAL = ('The theorems are complete for the model. The atomic-step model (one with_try_get = one step) is now DERIVED from a fine-grained '
+           'model with an explicit mutex (Memo/FineGrained.v: lock, lookup type, lookup args, construct, insert, callback, unlock): mutual '
+           'exclusion is proved, every fine schedule reduces to the atomic schedule given by the order of successful locks '
+           '(C14_fine_grained_reduces_to_atomic), once-only holds at every point of every fine schedule, and the check-then-act variant is '
+           'refuted (C14_check_then_act_refuted). What remains a reading of concurrent.rs is the ORDER of the seven micro-steps and the scope of '
+           'the guard (the MutexGuard is taken first and outlives construct, insert and cb(e)). '
            'Interleavings inside the critical section, mutex poisoning (a panicking constructor/callback, lock().unwrap()) and '
            're-entrancy (a callback calling the memoizer again: try_borrow_mut().expect("Cannot use memoizer reentrantly") in lib.rs, '
            'self-deadlock in concurrent.rs) are runtime behaviour the Gallina model cannot exhibit: construct/callback are pure total '
